@@ -31,7 +31,7 @@ func checkC02(c *Check, a *Anchors) {
 
 // cmdsLoop finds the loop over t.Cmds in the body closure whose body reaches the command runner.
 func cmdsLoop(a *Anchors) (ast.Stmt, *ast.BlockStmt) {
-	body := a.BodyClosure
+	body := a.LoopFn
 	info := body.Info()
 	var loop ast.Stmt
 	var lb *ast.BlockStmt
@@ -62,11 +62,11 @@ func cmdsLoop(a *Anchors) (ast.Stmt, *ast.BlockStmt) {
 
 func c02CmdsInOrder(c *Check, a *Anchors) {
 	c.Rule("cmds-in-order", "the cmds loop iterates the []*ast.Cmd slice in ascending order and calls the command runner synchronously in its own goroutine; in the run phase goroutines are spawned only by Run (--parallel), the dependency runner and the watch family")
-	body := a.BodyClosure
+	body := a.LoopFn
 	info := body.Info()
 	c.Fn(body)
 	loop, lb := cmdsLoop(a)
-	name := fnDisplay(body)
+	name := fnDisplay(a.BodyClosure)
 	if loop == nil {
 		c.Bad("cmds-in-order", "cmds-loop@"+name, body.Body.Pos(), "no loop in the task body calls the command runner synchronously (the call is missing or was moved into a goroutine/closure)")
 		return
